@@ -87,7 +87,7 @@ unbox_str = fn("unbox_str", V, S)
 box_bool = fn("box_bool", B, V)
 unbox_bool = fn("unbox_bool", V, B)
 is_str = fn("is_str", V, B)
-is_int = fn("is_int", V, B)
+is_int = fn("is_pyint", V, B)
 truthy = fn("truthy", V, B)
 EMPTY_SEQ = const("empty_seq")
 seq_append = fn("seq_append", V, V, V)
@@ -156,13 +156,15 @@ def _core():
                                  [has(dict_set(s, k, v), x)]))
     axiom(T, "dict-set-get", FA([s, k, v, x], get(dict_set(s, k, v), x) == z3.If(x == k, v, get(s, x)),
                                  [get(dict_set(s, k, v), x)]))
-    axiom(T, "dict-set-len", FA([s, k, v], len_(dict_set(s, k, v)) == z3.If(has(s, k), len_(s), len_(s) + 1),
+    # (the length / order / distinctness facts of an updated dict hold for dicts - sequences with distinct elements - only:
+    #  dict_set / dict_del / set_add are total function symbols, and unguarded these axioms are inconsistent on a sequence with duplicates)
+    axiom(T, "dict-set-len", FA([s, k, v], z3.Implies(is_dictlike(s), len_(dict_set(s, k, v)) == z3.If(has(s, k), len_(s), len_(s) + 1)),
                                  [dict_set(s, k, v)]))
-    axiom(T, "dict-set-order", FA([s, k, v, i], z3.Implies(z3.And(0 <= i, i < len_(s)), nth(dict_set(s, k, v), i) == nth(s, i)),
+    axiom(T, "dict-set-order", FA([s, k, v, i], z3.Implies(z3.And(0 <= i, i < len_(s), is_dictlike(s)), nth(dict_set(s, k, v), i) == nth(s, i)),
                                    [nth(dict_set(s, k, v), i)]))
-    axiom(T, "dict-set-order-new", FA([s, k, v], z3.Implies(z3.Not(has(s, k)), nth(dict_set(s, k, v), len_(s)) == k),
+    axiom(T, "dict-set-order-new", FA([s, k, v], z3.Implies(z3.And(z3.Not(has(s, k)), is_dictlike(s)), nth(dict_set(s, k, v), len_(s)) == k),
                                        [dict_set(s, k, v)]))
-    axiom(T, "dict-set-dictlike", FA([s, k, v], is_dictlike(dict_set(s, k, v)), [dict_set(s, k, v)]))
+    axiom(T, "dict-set-dictlike", FA([s, k, v], z3.Implies(is_dictlike(s), is_dictlike(dict_set(s, k, v))), [dict_set(s, k, v)]))
     axiom(T, "empty-dict-dictlike", is_dictlike(EMPTY_DICT))
     axiom(T, "values-len", FA(s, len_(dict_values(s)) == len_(s), [dict_values(s)]))
     axiom(T, "values-nth", FA([s, i], z3.Implies(z3.And(0 <= i, i < len_(s)), nth(dict_values(s), i) == get(s, nth(s, i))),
@@ -176,8 +178,8 @@ def _core():
     # sets
     axiom(T, "empty-set", z3.And(len_(EMPTY_SET) == 0, is_dictlike(EMPTY_SET)))
     axiom(T, "set-add-has", FA([s, k, x], has(set_add(s, k), x) == z3.Or(x == k, has(s, x)), [has(set_add(s, k), x)]))
-    axiom(T, "set-add-len", FA([s, k], z3.And(len_(set_add(s, k)) == z3.If(has(s, k), len_(s), len_(s) + 1),
-                                              is_dictlike(set_add(s, k))), [set_add(s, k)]))
+    axiom(T, "set-add-len", FA([s, k], z3.Implies(is_dictlike(s), z3.And(len_(set_add(s, k)) == z3.If(has(s, k), len_(s), len_(s) + 1),
+                                                                       is_dictlike(set_add(s, k)))), [set_add(s, k)]))
 
 
 is_dictlike = fn("is_dictlike", V, B)   # distinct elements (dict keys / set)
@@ -232,7 +234,7 @@ def _core2():
     T = "core"
     axiom(T, "dict-del-has", FA([s, k, x], has(dict_del(s, k), x) == z3.And(x != k, has(s, x)), [has(dict_del(s, k), x)]))
     axiom(T, "dict-del-get", FA([s, k, x], z3.Implies(x != k, get(dict_del(s, k), x) == get(s, x)), [get(dict_del(s, k), x)]))
-    axiom(T, "dict-del-len", FA([s, k], z3.And(len_(dict_del(s, k)) == z3.If(has(s, k), len_(s) - 1, len_(s)), is_dictlike(dict_del(s, k))),
+    axiom(T, "dict-del-len", FA([s, k], z3.Implies(is_dictlike(s), z3.And(len_(dict_del(s, k)) == z3.If(has(s, k), len_(s) - 1, len_(s)), is_dictlike(dict_del(s, k)))),
                                 [dict_del(s, k)]))
     axiom(T, "has-len", FA([s, x], z3.Implies(has(s, x), len_(s) >= 1), [has(s, x)]))
     v = const("v")
